@@ -192,7 +192,7 @@ def audit(repo, with_deps=True, quiet=False):
     if broken:
         say("RESULT: a premise no longer holds -> revisit DESIGN.md section 7 for the properties named above")
         return 3, report
-    say("RESULT: all premises hold -> DST remains not applicable to C01-C18 (DESIGN.md sections 0-4)")
+    say("RESULT: all premises hold -> no thread, clock, I/O or shared-state surface; DST stays not applicable to C01-C16 (C17, C18 are simulated on the callback and sink seams; DESIGN.md sections 0-4, 10)")
     return 0, report
 
 
